@@ -144,6 +144,41 @@ func (w *world) apply(op string) string {
 			proxy.C18SetBackendConn(w.scs[atoi(f[1])], nil)
 		}
 		return "-"
+	case "racelocked":
+		// the same race, but all handlers are started while someone else (connect/disconnect) holds the
+		// connections' mutexes, so they all reach the consume step before any of them can finish it
+		var unlocks []func()
+		for _, sc := range w.scs {
+			unlocks = append(unlocks, proxy.C18LockConn(sc))
+		}
+		g := atoi(f[1])
+		var ids []int64
+		for _, s := range strings.Split(f[2], ",") {
+			ids = append(ids, id(s))
+		}
+		var wg sync.WaitGroup
+		for j := 0; j < g; j++ {
+			wg.Add(1)
+			go func(j int) {
+				defer wg.Done()
+				for k := range ids {
+					proxy.C18Forward(w.player, ids[(k+j)%len(ids)])
+				}
+			}(j)
+		}
+		time.Sleep(15 * time.Millisecond) // let every handler run up to the lock
+		for _, u := range unlocks {
+			u()
+		}
+		wg.Wait()
+		ws := w.delta()
+		sort.Slice(ws, func(a, b int) bool {
+			if ws[a].b != ws[b].b {
+				return ws[a].b < ws[b].b
+			}
+			return ws[a].id < ws[b].id
+		})
+		return showWrites(ws)
 	case "race":
 		g := atoi(f[1])
 		var ids []int64
@@ -337,6 +372,9 @@ func main() {
 	g.script("fixed", "cur 0", "rec 0 1", "race 8 1", "race 8 1")
 	g.script("fixed", "cur 0", "infl 1", "rec 0 1", "rec 1 1", "rec 0 2", "rec 1 3", "race 6 1,2,3,4", "race 2 1,2,3")
 	g.script("fixed", "cur 0", "infl 1", "burst 0 70 0", "burst 1 70 35", "race 5 0,5,6,35,40,69,70,104,105")
+	// handlers queued up behind a held connection mutex: still one forward per pending id
+	g.script("fixed", "cur 0", "rec 0 1", "racelocked 4 1", "racelocked 4 1")
+	g.script("fixed", "cur 0", "infl 1", "rec 0 1", "rec 1 1", "rec 0 2", "rec 1 3", "racelocked 5 1,2,3,4")
 
 	// ---- generated histories ----
 	nseq := run.Scale(300, 3000)
@@ -366,7 +404,11 @@ func main() {
 			for j := range ids {
 				ids[j] = strconv.FormatInt(int64(r.Intn(14)), 10)
 			}
-			g.do("race", fmt.Sprintf("race %d %s", 2+r.Intn(15), strings.Join(ids, ",")))
+			op := "race"
+			if r.Chance(1, 6) {
+				op = "racelocked"
+			}
+			g.do("race", fmt.Sprintf("%s %d %s", op, 2+r.Intn(15), strings.Join(ids, ",")))
 			_ = pool
 		}
 	}
